@@ -365,6 +365,7 @@ def stream_storage(run, tier, Q, tf, rng):
     run.count("storage_len_%d" % len(seq))
     msteps = out["steps"]
     mirrored = True
+    bad_at = None
     for oi, (o, m) in enumerate(zip(steps + [dict(fin, raised=False)], msteps)):
       a = (o["store"], core.unrj(o["v"]), o["built"], o["use_vars"], o["raised"])
       b = (m["store"], core.unrj(m["v"]), m["built"], m["use_vars"], m["raised"])
@@ -372,6 +373,7 @@ def stream_storage(run, tier, Q, tf, rng):
         run.disagree("storage", {"cfg": label, "init": init, "ops": [list(x) for x in seq], "at": oi},
                      {k: o[k] for k in ("store", "v", "built", "use_vars", "raised")} | {"err": o.get("err")}, m)
         mirrored = False
+        bad_at = oi
         break
     for oi, o in enumerate(steps):
       run.count("storage_after_%s_%s" % (seq[oi][0], o["store"]))
@@ -382,7 +384,8 @@ def stream_storage(run, tier, Q, tf, rng):
       prev = init["store"] if oi == 0 else steps[oi - 1]["store"]
       run.violate("update_api_raises", {"op": seq[oi][0], "store": prev, "error": err},
                   {"cfg": label, "init": init, "ops": [list(x) for x in seq], "at": oi, "error": err,
-                   "replay": "q=%s(**%r); %s -> raises %s" % (cname, kw, seq[oi], err)}, mirrored=mirrored)
+                   "replay": "q=%s(**%r); %s -> raises %s" % (cname, kw, seq[oi], err)},
+                  mirrored=(bad_at is None or oi < bad_at))
     last = None
     for oi, op in enumerate(seq):
       if op[0] in ("update", "update_from_var") and not steps[oi]["raised"]:
@@ -654,6 +657,7 @@ def stream_sched(run, tier, Q, tf, rng):
     run.compared += 1
     run.count("sched_%s_%s" % (kind, mname))
     mirrored = True
+    bad_at = None
     for i, (o, m) in enumerate(zip(steps, out["steps"])):
       def norm(d, is_model):
         qs = d["quantizers"]
@@ -667,6 +671,7 @@ def stream_sched(run, tier, Q, tf, rng):
                      {"raised": o["raised"], "err": o["err"], "num_iters": o["num_iters"], "factor": o["factor"],
                       "quantizers": o["quantizers"]}, m)
         mirrored = False
+        bad_at = i
         break
     # ---- clause oracle on the observed behaviour only
     keras_order = ev[0] == "T"   # Keras always calls on_train_begin first
@@ -681,7 +686,7 @@ def stream_sched(run, tier, Q, tf, rng):
           run.violate("hook_raises", {"hook": _HOOK.get(e, "forward"), "cause": cause, "error": o["err"]},
                       {"cfg": c, "model": mname, "events": "".join(ev), "at": i, "error": o["err"],
                        "replay": "QNoiseScheduler%r on stub model %s, events %s" % (c, mname, "".join(ev))},
-                      mirrored=mirrored)
+                      mirrored=(bad_at is None or i < bad_at))
         continue
       fct = None if o["factor"] is None else core.unrj(o["factor"])
       if fct is not None:
@@ -869,10 +874,10 @@ def stream_layers(run, tier, Q, tf, rng):
       seen_here = {id(q) for q in (getattr(layer, "quantizers", None) or [])} | {id(getattr(layer, "quantizer", None))}
       hid = []
       for path, q in _walk_quantizers(tf, layer, BaseQuantizer):
+        t = tag_of(q)
+        holders.setdefault(t, "submodel" if "layers" in path else ("cell" if "cell" in path else path[0]))
         if id(q) in seen_here:
           continue
-        t = tag_of(q)
-        holders[t] = "submodel" if "layers" in path else ("cell" if "cell" in path else path[0])
         hid.append(_qjson(tf, q, t))
       d["hidden"] = hid
       ljson.append(d)
@@ -885,13 +890,17 @@ def stream_layers(run, tier, Q, tf, rng):
     if got_tags != out["tags"]:
       run.disagree("get_quantizers", {"model": name}, got_tags, out["tags"])
     mirrored = got_tags == out["tags"]
-    for t in out["hidden_knob_tags"]:
-      run.count("hidden_%s" % holders.get(t, "?"))
+    if sorted(out["hidden_knob_tags"]) != sorted(t for t in holders if holders[t] not in ("quantizers", "quantizer")):
+      run.disagree("get_quantizers-hidden", {"model": name}, holders, out["hidden_knob_tags"])
+    # clause (judged on the real result against the independent object-graph walk): every knob-bearing
+    # quantizer of the model is returned
+    for t in sorted(holders):
+      run.count("held_in_%s" % holders[t])
       if t not in got_tags:
-        run.violate("covers_every_knob_quantizer", {"holder": holders.get(t, "?")},
-                    {"model": name, "missed_quantizer": objs[t].__class__.__name__, "held_in": holders.get(t),
+        run.violate("covers_every_knob_quantizer", {"holder": holders[t]},
+                    {"model": name, "missed_quantizer": objs[t].__class__.__name__, "held_in": holders[t],
                      "replay": "QNoiseScheduler(0,4).get_quantizers(<%s model>) misses the %s held in layer.%s"
-                               % (name, objs[t].__class__.__name__, holders.get(t))}, mirrored=mirrored)
+                               % (name, objs[t].__class__.__name__, holders[t])}, mirrored=mirrored)
 
   # ---- one tiny fit: Keras calls the hooks in the modelled order, and the model run on that hook
   #      sequence reproduces the factors the real training saw
